@@ -32,6 +32,10 @@ func ParseProgram(fsys fs.FS) (*ast.Tree, error) {
 	main := ast.NewImport(nil, nil, "main", nil)
 	imports := []*ast.Import{main}
 
+	// importers maps each import declaration added to imports to the tree of
+	// the package that contains the declaration.
+	importers := map[*ast.Import]*ast.Tree{}
+
 	for len(imports) > 0 {
 
 		last := len(imports) - 1
@@ -57,7 +61,7 @@ func ParseProgram(fsys fs.FS) (*ast.Tree, error) {
 			if last == 0 {
 				return nil, errors.New("cannot find main package")
 			}
-			path := imports[last-1].Tree.Path
+			path := importers[n].Path
 			return nil, &SyntaxError{path, *n.Position, fmt.Sprintf("cannot find package %q", n.Path)}
 		}
 		trees[n.Path] = n.Tree
@@ -99,6 +103,7 @@ func ParseProgram(fsys fs.FS) (*ast.Tree, error) {
 			if !strings.HasPrefix(imp.Path, modPrefix) {
 				continue
 			}
+			importers[imp] = n.Tree
 			// Append the imports in reverse order.
 			if last == len(imports)-1 {
 				imports = append(imports, imp)
